@@ -160,7 +160,8 @@ func (s *State) cmd(cmd string) {
 	needReload := false
 	check := func(ci string) {
 		out := s.Conn.GetOutput()
-		out, needReload = s.stripReloadBanner(out)
+		out, need := s.stripReloadBanner(out)
+		needReload = needReload || need
 		out = s.Conn.StripEcho(ci, out)
 		if out != "" {
 			if !isValidOutput(ci, out) {
